@@ -66,7 +66,7 @@ SmallOK ==
 
 -----------------------------------------------------------------------------
 (* big mode: words, products of words, identities *)
-HS == {0, 1, 2, 255, 16383, 16384, 32767, 32768, 32769, 49152, 65534, 65535}
+HS == {0, 1, 255, 16384, 32767, 32768, 32769, 65534, 65535}
 LS == {0, 1, 32767, 32768, 65535}
 Words == {<<h, l>> : h \in HS, l \in LS}
 NatWord(w) == (IF w[1] >= 32768 THEN w[1] - 65536 ELSE w[1]) * 65536 + w[2]     \* fits a TLC integer
